@@ -145,12 +145,16 @@ def _y_scalar(v, rng):
         return str(v)
     if is_f(v):
         return v[1]
+    if isinstance(v, P):
+        return str(v) if rng.chance(2, 3) else json.dumps(v)
     if SAFE.match(v) and v.lower() not in YAML_WORDS and rng.chance(1, 2):
         return v
     return json.dumps(v, ensure_ascii=False)   # raw UTF-8: a JSON surrogate-pair escape is not YAML
 
 
 def _y_key(k, rng):
+    if isinstance(k, P):
+        return str(k) if rng.chance(2, 3) else json.dumps(k)
     if SAFE.match(k) and k.lower() not in YAML_WORDS and rng.chance(3, 4):
         return k
     return json.dumps(k, ensure_ascii=False)
@@ -276,6 +280,16 @@ LOGGER_NAMES = ["app", "app::x", "app::x::y", "other", "lib::é", "app::z", "lib
                 # a logger name is an opaque string of '::'-separated segments: none of these is another one
                 "my-svc", "my_svc", "my-svc::db-pool", "my_svc::db_pool", "My-Svc", "a.b", "web server", "app::X"]
 APP_NAMES = ["a0", "a1", "a2", "a3", "main-file", "app é", "x.y"]
+
+
+class P(str):
+    """an appender name that reads like a number or a YAML keyword.  It is a STRING in the tree (and quoted in JSON and
+    in TOML values); where a YAML document names an appender - a key of `appenders`, an item of a root / logger
+    `appenders` list - the target type is a string, so the plain spelling (`1`, `true`, `0x10`) is that string too and
+    the YAML renderer may write it unquoted."""
+
+
+ODD_APP_NAMES = [P("1"), P("007"), P("true"), P("null"), P("0x10"), P("1e3"), P("no"), P("1.5"), P("-3"), P("Yes")]
 SIZE_UNITS = [("b", 1), ("kb", 1024), ("kib", 1024), ("mb", 1024 ** 2), ("mib", 1024 ** 2),
               ("gb", 1024 ** 3), ("tb", 1024 ** 4)]
 TIME_UNITS = ["second", "minute", "hour", "day", "week", "month", "year"]
@@ -298,7 +312,7 @@ def ws(rng):
 
 def gen_logical(rng):
     n_app = rng.choice([0, 1, 2, 2, 3, 3, 4])
-    names = rng.shuffle(APP_NAMES)[:n_app]
+    names = rng.shuffle(APP_NAMES + (rng.shuffle(ODD_APP_NAMES)[:2] if rng.chance(1, 3) else []))[:n_app]
     apps = []
     for i, nm in enumerate(names):
         k = rng.choice(["file", "file", "file", "rolling", "rolling", "console"])
